@@ -10,11 +10,13 @@ meta.json gets a "confirmation" block with what was run and the results.
 """
 import json, os, re, shutil, subprocess, sys, tempfile
 
+MUTDIR = os.environ.get("MUTDIR", "/tmp/mut-out")
+TAG = os.environ.get("MUTTAG", "")   # e.g. "r2-" for the second round
 ENV = dict(os.environ, GOFLAGS="-mod=mod", GOPROXY="off", GOSUMDB="off", GOTOOLCHAIN="local")
 KNOWN_BUILD_FAIL = ("lib/others/cgo/sipadll", "lib/others/cgo/sipasec", "lib/others/qdb/os_membinds", "client/speedups", "lib/others/cgo/ec_bench", "tools/")
 
 def sh(cmd, cwd, timeout=1800):
-    p = subprocess.run(cmd, cwd=cwd, env=ENV, shell=True, stdout=subprocess.PIPE, stderr=subprocess.STDOUT, text=True, timeout=timeout)
+    p = subprocess.run(cmd, cwd=cwd, env=ENV, shell=True, stdout=subprocess.PIPE, stderr=subprocess.STDOUT, text=True, errors='replace', timeout=timeout)
     return p.returncode, p.stdout
 
 def demo_params(meta, demo_src):
@@ -43,7 +45,7 @@ def baseline_ok(wt):
     return missing
 
 def confirm(pid, n):
-    src = "/tmp/mut-out/%s/%s" % (pid, n)
+    src = "%s/%s/%s" % (MUTDIR, pid, n)
     meta = json.load(open(src + "/meta.json"))
     demos = [f for f in os.listdir(src + "/demo") if f.endswith("_test.go")]
     if not demos:
@@ -100,9 +102,9 @@ def confirm(pid, n):
 
 def main():
     pid = sys.argv[1]
-    ns = sys.argv[2:] or sorted(d for d in os.listdir("/tmp/mut-out/" + pid) if d.isdigit())
+    ns = sys.argv[2:] or sorted(d for d in os.listdir(MUTDIR + "/" + pid) if d.isdigit())
     for n in ns:
-        src = "/tmp/mut-out/%s/%s" % (pid, n)
+        src = "%s/%s/%s" % (MUTDIR, pid, n)
         if not os.path.exists(src + "/patch.diff"): continue
         r = confirm(pid, n)
         err, conf = (r if isinstance(r, tuple) else (r, {}))
@@ -110,7 +112,7 @@ def main():
             print("%s/%s NOT CONFIRMED: %s" % (pid, n, err));
             json.dump({"error": err, "conf": conf}, open(src + "/confirm_failed.json", "w"), indent=1)
             continue
-        dst = "/verif/seeded/%s-%s" % (pid, n)
+        dst = "/verif/seeded/%s-%s%s" % (pid, TAG, n)
         if os.path.exists(dst): shutil.rmtree(dst)
         os.makedirs(dst)
         shutil.copy(src + "/patch.diff", dst)
